@@ -197,11 +197,15 @@ func specRel(opts []layers.TCPOption, a int, o int, isn uint32) uint32 {
 //@ before TracerouteParallel assert[C10.sack.others.mid4] forallint(h, old(selb(isOpen, h)) ==> selb(isOpen, h))
 //@ before TracerouteParallel assert[C10.sack.open] selb(isOpen, ref(driver.source)) && selb(isOpen, ref(driver.sink))
 // C12 (composition step): while the handshake is read the SYN-ACK filter is installed (the handshake matcher only takes
-// SYN-ACKs); for the trace the tuple filter is "from the target to the local port the driver matches on". (That the
-// filter's local address *bytes* equal driver.localAddr is checked by the code itself before the handshake, but is not
-// claimed here: ReadHandshake's frame is `*`, and a precise one would need to know that the net.TCPAddr returned by
-// conn.LocalAddr() does not share memory with the driver's read buffer, which no contract in reach can state.)
+// SYN-ACKs); for the trace the tuple filter is "from the target to the local port the driver matches on". That the
+// filter's local *address* equals driver.localAddr is proved at the point where the code compares them, before the
+// handshake is read (C12.sack.filter.addr); that the bytes of that net.TCPAddr are still the same when the filter is
+// built afterwards is not claimed: ReadHandshake's frame is `*`, and a precise one would need to know that the address
+// object returned by conn.LocalAddr() shares no memory with the driver's read buffer, which no contract in reach states.
 //@ before Source.SetPacketFilter#1 assert[C12.sack.filter.hs] callarg0.FilterType == packets.FilterTypeSYNACK && ncalls("(*sackDriver).ReadHandshake") == old(ncalls("(*sackDriver).ReadHandshake"))
+// (the local address the filter will name is the one the driver matches on — established where the code compares them,
+// before the handshake is read)
+//@ before ReadHandshake assert[C12.sack.filter.addr] tcpAddr.AddrPort().Addr() == driver.localAddr
 //@ before Source.SetPacketFilter#2 assert[C12.sack.filter.run] callarg0.FilterType == packets.FilterTypeTCP && callarg0.FilterConfig.Src == driver.params.Target && callarg0.FilterConfig.Dst.Port() == driver.localPort && callarg0.FilterConfig.Dst.Addr().Is4() == driver.localAddr.Is4() && ncalls(TracerouteParallel) == old(ncalls(TracerouteParallel))
 //@ modifies *, ghost isOpen, ghost closeN, ghost clock, ghost sendN, ghost sendLog, ghost sendClock, ghost tcpDialed, ghost ioFail
 
